@@ -2,6 +2,7 @@
 import random
 from harness.mq import gen_group, evaluate, cases_from_replay
 from harness.mqoracle import oracle_c15, oracle_c12
+from harness import dynsched
 
 ASSUMPTIONS = [
     'workloads over the configured flows/classes; weights are positive integers; sizes positive integers; rate > 0; `out` attached',
@@ -12,6 +13,11 @@ ASSUMPTIONS = [
     'the scheduler processes on the real kernel refine the MultiQueueServer LTS: checked by replay; proved for RR and WRR as processes on the kernel model (Props/C15K, C15KW), not for DRR',
     'in 15% of the cases size()/byte_size()/all_flows() of every configured flow are read before the first arrival and between arrivals; those instances are judged by the direct oracles only (a read makes a flow show up in all_flows() before its first packet)',
 ]
+ASSUMPTIONS.append('re-entrant / rewriting next hop and reconfiguration while running (oracle-only family, harness/dynsched.py; RR, WRR, DRR): the next hop re-labels `flow_id` or '
+                   'rewrites `size` of the packet it is handed, or hands packets straight back to put(), inside its own put(); the values of WRR\'s `weights` dict are edited in '
+                   'place and `rate` is reassigned by another process - the allowance of a WRR visit is read as the weight in force when the visit begins. Judged: cyclic '
+                   'declaration order with empty classes skipped (RR, WRR), and that no loop rests while a class is backlogged (all three). Not generated: `weights` re-bound '
+                   'to another dict (the pass in progress still iterates the old one: left open), DRR with a re-sizing next hop (finding, see dynsched.EXCLUDED)')
 EXTRA_MODULES = ('OnlVerif.Props.C15K', 'OnlVerif.Props.C15KW')
 TRUSTED_EXTRA = ['the kernel guarantees (G1-G3) that make `tick` admissible only at quiescence are theorems of model K (C01), assumed for the device LTS',
                  'py2lean/elem.py + elements.py (typed AST-subset translator; hand-written per-class field schema of DRR objects; the fragments of '
@@ -440,6 +446,7 @@ def run(ctx):
         return rk
     rng = random.Random(f'C15-{ctx.seed}')
     cases = cases_from_replay(ctx.replay) if ctx.replay else gen(rng, 1500 if ctx.quick else 30000)
+    cases = [c for c in cases if not str(c.get('kind', '')).startswith('dyn:')]      # (a replay of an oracle-only case: see below)
     res = evaluate(
         cases, [oracle_c15, oracle_c12],
         nontrivial=lambda c, r, st, co: st.get('multi_class_decisions', 0) > 0,
@@ -451,4 +458,8 @@ def run(ctx):
                             'hand_modelled': HAND_MODELLED})
     run_rrk(ctx, res)                        # rrk leg: appends its coverage, disagreements and oracle failures in place
     run_wrrk(ctx, res)                       # wrrk leg: likewise
+    # oracle-only: next hops that re-label / re-size the packet or call back into put(), WRR weights edited in place, the rate reassigned
+    d = dynsched.run_family(ctx, 'C15', ['rr', 'wrr', 'drr'], ['relabel', 'relabel', 'relabel', 'reflect', 'resize', 'weights', 'rate'], ['roundrobin', 'service'], 200, 4000)
+    res['coverage']['reconfigured_and_reentrant_family_oracle_only'] = d['coverage']
+    res['oracle_failures'] += d['oracle_failures']
     return res
